@@ -115,7 +115,7 @@ class Lab(object):
             for _ in range(depth):
                 obj = obj.section()
             gated = [obj]
-        elif kind in ("secio", "bufferedio-secio"):
+        elif kind.endswith("secio"):
             obj = io
             for _ in range(depth):
                 obj = obj.section()
@@ -138,7 +138,7 @@ class Lab(object):
         return obj, gate, (so, se), prefill
 
 
-KINDS = ("io", "bufferedio", "consoleio", "nullio", "out", "err", "sec-out", "sec-err", "secio", "bufferedio-secio")
+KINDS = ("io", "bufferedio", "consoleio", "nullio", "out", "err", "sec-out", "sec-err", "secio", "bufferedio-secio", "nullio-secio", "consoleio-secio")
 FORMATTERS = ("ansi-forced", "ansi-stream", "plain")
 
 
@@ -178,7 +178,12 @@ def discover(lab, sh):
     unprobed = set()
     for kind in KINDS:
         for fk in FORMATTERS:
-            obj = lab.make(kind, fk)[0]
+            try:
+                obj = lab.make(kind, fk)[0]
+            except Exception as e:
+                # an output object of the property's domain cannot even be obtained (io.section() of some I/O kind raises)
+                sh.violate("output-unavailable", {"kind": kind, "formatter": fk}, "creating the %s output object raised %r" % (kind, e))
+                continue
             for name in dir(obj):
                 if name.startswith("_"):
                     continue
